@@ -80,11 +80,11 @@ mutual
     | f :: fs => passDownFile k f :: passDownFiles k fs
 end
 
-/-- the kind-specific field rules of `FileInfoSerial::unserialize`, for an already decoded
-list of children. -/
-def fileFields (path : AN Str) (kindA : AN FileKind) (subfile : AN Str) (padAmount : AN Nat)
-    (sect : AN Str) (lo : AN Str) (so : AN (List (Str × Str))) (filesHas : Bool)
-    (children : D (List FileInfo)) (dir : AN Str) (c : CondS) (keep : Keep) : D FileInfo :=
+/-- first half of `FileInfoSerial::unserialize`: path and kind, then `subfile`, `pad_amount`,
+`section`, `linker_offset_name`, `section_order`, each required / optional / forbidden by the kind. -/
+def filePre (path : AN Str) (kindA : AN FileKind) (subfile : AN Str) (padAmount : AN Nat)
+    (sect : AN Str) (lo : AN Str) (so : AN (List (Str × Str))) :
+    D (Str × FileKind × Str × Nat × Str × Str × List (Str × Str)) :=
   match kindA.nonNullNoDefault with
   | .error e => .error e
   | .ok kindO =>
@@ -132,44 +132,60 @@ def fileFields (path : AN Str) (kindA : AN FileKind) (subfile : AN Str) (padAmou
                 else if so.hasValue then .error .invalidFieldCombo else .ok []
               match soR with
               | .error e => .error e
-              | .ok sord =>
-                let filesR : D (List FileInfo) :=
-                  if kind = .group then
-                    (if filesHas then children else .error .missingRequiredField)
-                  else if filesHas then .error .invalidFieldCombo else .ok []
-                match filesR with
-                | .error e => .error e
-                | .ok fs =>
-                  let dirR : D Str :=
-                    if kind = .group then dir.nonNull []
-                    else if dir.hasValue then .error .invalidFieldCombo else .ok []
-                  match dirR with
-                  | .error e => .error e
-                  | .ok dr =>
-                    match c.unserialize with
-                    | .error e => .error e
-                    | .ok cond =>
-                      let fs' := if kind = .group ∧ keep ≠ .absent then passDownFiles keep fs else fs
-                      .ok (.mk p kind sf pa se lon sord fs' dr cond keep)
+              | .ok sord => .ok (p, kind, sf, pa, se, lon, sord)
+
+/-- last part of `FileInfoSerial::unserialize`: `dir` and the four condition lists. -/
+def filePost (kind : FileKind) (dir : AN Str) (c : CondS) : D (Str × Cond) :=
+  let dirR : D Str :=
+    if kind = .group then dir.nonNull []
+    else if dir.hasValue then .error .invalidFieldCombo else .ok []
+  match dirR with
+  | .error e => .error e
+  | .ok dr =>
+    match c.unserialize with
+    | .error e => .error e
+    | .ok cond => .ok (dr, cond)
+
+/-- the kind-specific field rules of `FileInfoSerial::unserialize`, for an already decoded
+list of children. `pass = true` is the code; `pass = false` omits the three `keep_sections`
+push-down passes (used to state C14: the passes compute the nearest explicit ancestor). -/
+def fileFields (pass : Bool) (path : AN Str) (kindA : AN FileKind) (subfile : AN Str) (padAmount : AN Nat)
+    (sect : AN Str) (lo : AN Str) (so : AN (List (Str × Str))) (filesHas : Bool)
+    (children : D (List FileInfo)) (dir : AN Str) (c : CondS) (keep : Keep) : D FileInfo :=
+  match filePre path kindA subfile padAmount sect lo so with
+  | .error e => .error e
+  | .ok (p, kind, sf, pa, se, lon, sord) =>
+    let filesR : D (List FileInfo) :=
+      if kind = .group then
+        (if filesHas then children else .error .missingRequiredField)
+      else if filesHas then .error .invalidFieldCombo else .ok []
+    match filesR with
+    | .error e => .error e
+    | .ok fs =>
+      match filePost kind dir c with
+      | .error e => .error e
+      | .ok (dr, cond) =>
+        let fs' := if pass ∧ kind = .group ∧ keep ≠ .absent then passDownFiles keep fs else fs
+        .ok (.mk p kind sf pa se lon sord fs' dr cond keep)
 
 mutual
   /-- `FileInfoSerial::unserialize`. Children are unserialised only when the entry is a
   group that has a `files` value (as in the code, where `files.get()?.unserialize()` runs
   in the group arm only). -/
-  def FileS.unserialize : FileS → D FileInfo
+  def FileS.unserialize (pass : Bool) : FileS → D FileInfo
     | .mk path kindA subfile padAmount sect lo so files dir c keep =>
-      fileFields path kindA subfile padAmount sect lo so (AN.hasValue files)
+      fileFields pass path kindA subfile padAmount sect lo so (AN.hasValue files)
         (match files with
-         | .value l => FileS.unserializeList l
+         | .value l => FileS.unserializeList pass l
          | _ => .ok [])
         dir c keep
-  def FileS.unserializeList : List FileS → D (List FileInfo)
+  def FileS.unserializeList (pass : Bool) : List FileS → D (List FileInfo)
     | [] => .ok []
     | f :: fs =>
-      match FileS.unserialize f with
+      match FileS.unserialize pass f with
       | .error e => .error e
       | .ok x =>
-        match FileS.unserializeList fs with
+        match FileS.unserializeList pass fs with
         | .error e => .error e
         | .ok xs => .ok (x :: xs)
 end
@@ -262,76 +278,88 @@ def hasSubgroupCycle (m : List (Str × List Str)) : Bool :=
 
 def atMostOne (l : List Bool) : Bool := (l.filter id).length ≤ 1
 
+/-- the segment's `gp_info`, unserialised. -/
+def gpOf (s : SegmentS) : D (Option GpInfo) :=
+  match s.gpInfo.nonNullNoDefault with
+  | .error e => .error e
+  | .ok none => .ok none
+  | .ok (some g) => match g.unserialize with
+    | .ok x => .ok (some x)
+    | .error e => .error e
+
+/-- `gp_info.section` must be one of the segment's sections. -/
+def gpSectionOk (gp : Option GpInfo) (alloc noload : List Str) : Bool :=
+  match gp with
+  | some g => g.sect ∈ alloc || g.sect ∈ noload
+  | none => true
+
+/-- everything `SegmentSerial::unserialize` does after its files are unserialised (the result
+carries no files yet). -/
+def segmentRest (st : Settings) (s : SegmentS) : D Segment :=
+  match s.fixedVram.nonNullNoDefault, s.fixedSymbol.nonNullNoDefault,
+        s.followsSegment.nonNullNoDefault, s.vramClass.nonNullNoDefault with
+  | .ok fv, .ok fs, .ok fol, .ok vc =>
+    if !atMostOne [fv.isSome, fs.isSome, fol.isSome, vc.isSome] then .error .invalidFieldCombo
+    else
+      match s.dir.nonNull [] with
+      | .error e => .error e
+      | .ok dir =>
+        match gpOf s with
+        | .error e => .error e
+        | .ok gp =>
+          if gp.isSome && st.hardcodedGpValue.isSome then .error .invalidFieldCombo
+          else
+            match s.cond.unserialize with
+            | .error e => .error e
+            | .ok cond =>
+              match s.over.allocSections.nonNull st.allocSections,
+                    s.over.noloadSections.nonNull st.noloadSections with
+              | .ok alloc, .ok noload =>
+                if !gpSectionOk gp alloc noload then .error .missingSectionForSegment
+                else
+                  match s.over.sectionsStartAlignment.nonNull st.sectionsStartAlignment,
+                        s.over.sectionsEndAlignment.nonNull st.sectionsEndAlignment,
+                        s.over.wildcardSections.nonNull st.wildcardSections,
+                        s.over.sectionsSubgroups.nonNull st.sectionsSubgroups with
+                  | .ok ssa, .ok sea, .ok wc, .ok sub =>
+                    if hasSubgroupCycle sub then .error .cyclicSubgroups
+                    else
+                      .ok { name := s.name,
+                            files := [],
+                            fixedVram := fv, fixedSymbol := fs, followsSegment := fol, vramClass := vc,
+                            dir := dir, gpInfo := gp, cond := cond,
+                            allocSections := alloc, noloadSections := noload,
+                            subalign := s.over.subalign.optionalNullable st.subalign,
+                            segmentStartAlign := s.over.segmentStartAlign.optionalNullable st.segmentStartAlign,
+                            segmentEndAlign := s.over.segmentEndAlign.optionalNullable st.segmentEndAlign,
+                            sectionStartAlign := s.over.sectionStartAlign.optionalNullable st.sectionStartAlign,
+                            sectionEndAlign := s.over.sectionEndAlign.optionalNullable st.sectionEndAlign,
+                            sectionsStartAlignment := ssa, sectionsEndAlignment := sea,
+                            wildcardSections := wc,
+                            fillValue := s.over.fillValue.optionalNullable st.fillValue,
+                            sectionsSubgroups := sub, keep := s.keep }
+                  | .error e, _, _, _ => .error e
+                  | _, .error e, _, _ => .error e
+                  | _, _, .error e, _ => .error e
+                  | _, _, _, .error e => .error e
+              | .error e, _ => .error e
+              | _, .error e => .error e
+  | .error e, _, _, _ => .error e
+  | _, .error e, _, _ => .error e
+  | _, _, .error e, _ => .error e
+  | _, _, _, .error e => .error e
+
 /-- `SegmentSerial::unserialize`. -/
-def SegmentS.unserialize (st : Settings) (s : SegmentS) : D Segment :=
+def SegmentS.unserialize (pass : Bool) (st : Settings) (s : SegmentS) : D Segment :=
   if s.name = [] then .error .emptyValue
   else if s.files.isEmpty then .error .emptyValue
   else
-    match FileS.unserializeList s.files with
+    match FileS.unserializeList pass s.files with
     | .error e => .error e
     | .ok files =>
-      match s.fixedVram.nonNullNoDefault, s.fixedSymbol.nonNullNoDefault,
-            s.followsSegment.nonNullNoDefault, s.vramClass.nonNullNoDefault with
-      | .ok fv, .ok fs, .ok fol, .ok vc =>
-        if !atMostOne [fv.isSome, fs.isSome, fol.isSome, vc.isSome] then .error .invalidFieldCombo
-        else
-          match s.dir.nonNull [] with
-          | .error e => .error e
-          | .ok dir =>
-            let gpR : D (Option GpInfo) :=
-              match s.gpInfo.nonNullNoDefault with
-              | .error e => .error e
-              | .ok none => .ok none
-              | .ok (some g) => match g.unserialize with
-                | .ok x => .ok (some x)
-                | .error e => .error e
-            match gpR with
-            | .error e => .error e
-            | .ok gp =>
-              if gp.isSome && st.hardcodedGpValue.isSome then .error .invalidFieldCombo
-              else
-                match s.cond.unserialize with
-                | .error e => .error e
-                | .ok cond =>
-                  match s.over.allocSections.nonNull st.allocSections,
-                        s.over.noloadSections.nonNull st.noloadSections with
-                  | .ok alloc, .ok noload =>
-                    let gpOk := match gp with
-                      | some g => g.sect ∈ alloc || g.sect ∈ noload
-                      | none => true
-                    if !gpOk then .error .missingSectionForSegment
-                    else
-                      match s.over.sectionsStartAlignment.nonNull st.sectionsStartAlignment,
-                            s.over.sectionsEndAlignment.nonNull st.sectionsEndAlignment,
-                            s.over.wildcardSections.nonNull st.wildcardSections,
-                            s.over.sectionsSubgroups.nonNull st.sectionsSubgroups with
-                      | .ok ssa, .ok sea, .ok wc, .ok sub =>
-                        if hasSubgroupCycle sub then .error .cyclicSubgroups
-                        else
-                          .ok { name := s.name,
-                                files := if s.keep ≠ .absent then passDownFiles s.keep files else files,
-                                fixedVram := fv, fixedSymbol := fs, followsSegment := fol, vramClass := vc,
-                                dir := dir, gpInfo := gp, cond := cond,
-                                allocSections := alloc, noloadSections := noload,
-                                subalign := s.over.subalign.optionalNullable st.subalign,
-                                segmentStartAlign := s.over.segmentStartAlign.optionalNullable st.segmentStartAlign,
-                                segmentEndAlign := s.over.segmentEndAlign.optionalNullable st.segmentEndAlign,
-                                sectionStartAlign := s.over.sectionStartAlign.optionalNullable st.sectionStartAlign,
-                                sectionEndAlign := s.over.sectionEndAlign.optionalNullable st.sectionEndAlign,
-                                sectionsStartAlignment := ssa, sectionsEndAlignment := sea,
-                                wildcardSections := wc,
-                                fillValue := s.over.fillValue.optionalNullable st.fillValue,
-                                sectionsSubgroups := sub, keep := s.keep }
-                      | .error e, _, _, _ => .error e
-                      | _, .error e, _, _ => .error e
-                      | _, _, .error e, _ => .error e
-                      | _, _, _, .error e => .error e
-                  | .error e, _ => .error e
-                  | _, .error e => .error e
-      | .error e, _, _, _ => .error e
-      | _, .error e, _, _ => .error e
-      | _, _, .error e, _ => .error e
-      | _, _, _, .error e => .error e
+      match segmentRest st s with
+      | .error e => .error e
+      | .ok seg => .ok { seg with keep := s.keep, files := if pass ∧ s.keep ≠ .absent then passDownFiles s.keep files else files }
 
 /-- `VramClassSerial::unserialize`. -/
 def VramClassS.unserialize (v : VramClassS) : D VramClass :=
@@ -386,8 +414,8 @@ def applyClassKeep (classes : List VramClass) (seg : Segment) : Segment :=
     | none => seg
     | some vc => seg.passDownKeep vc.keep
 
-/-- `DocumentSerial::unserialize`. -/
-def DocumentS.unserialize (d : DocumentS) : D Document :=
+/-- first part of `DocumentSerial::unserialize`: settings, the non-empty check, the classes. -/
+def documentPre (d : DocumentS) : D (Settings × List VramClass) :=
   let settingsR : D Settings :=
     match d.settings.nonNullNoDefault with
     | .error e => .error e
@@ -403,35 +431,48 @@ def DocumentS.unserialize (d : DocumentS) : D Document :=
       | .ok vcs =>
         match mapE VramClassS.unserialize vcs with
         | .error e => .error e
-        | .ok classes =>
-          match mapE (SegmentS.unserialize settings) d.segments with
+        | .ok classes => .ok (settings, classes)
+
+/-- last part: `entry` and the three top-level lists. -/
+def documentPost (d : DocumentS) :
+    D (Option Str × List SymbolAssignment × List RequiredSymbol × List AssertEntry) :=
+  match d.entry.nonNullNoDefault with
+  | .error e => .error e
+  | .ok entry =>
+    match d.symbolAssignments.nonNull [] with
+    | .error e => .error e
+    | .ok sas =>
+      match mapE SymbolAssignmentS.unserialize sas with
+      | .error e => .error e
+      | .ok symbolAssignments =>
+        match d.requiredSymbols.nonNull [] with
+        | .error e => .error e
+        | .ok rss =>
+          match mapE RequiredSymbolS.unserialize rss with
           | .error e => .error e
-          | .ok segments =>
-            match d.entry.nonNullNoDefault with
+          | .ok requiredSymbols =>
+            match d.asserts.nonNull [] with
             | .error e => .error e
-            | .ok entry =>
-              match d.symbolAssignments.nonNull [] with
+            | .ok as_ =>
+              match mapE AssertS.unserialize as_ with
               | .error e => .error e
-              | .ok sas =>
-                match mapE SymbolAssignmentS.unserialize sas with
-                | .error e => .error e
-                | .ok symbolAssignments =>
-                  match d.requiredSymbols.nonNull [] with
-                  | .error e => .error e
-                  | .ok rss =>
-                    match mapE RequiredSymbolS.unserialize rss with
-                    | .error e => .error e
-                    | .ok requiredSymbols =>
-                      match d.asserts.nonNull [] with
-                      | .error e => .error e
-                      | .ok as_ =>
-                        match mapE AssertS.unserialize as_ with
-                        | .error e => .error e
-                        | .ok asserts =>
-                          .ok { settings := settings, vramClasses := classes,
-                                segments := segments.map (applyClassKeep classes),
-                                entry := entry, symbolAssignments := symbolAssignments,
-                                requiredSymbols := requiredSymbols, asserts := asserts }
+              | .ok asserts => .ok (entry, symbolAssignments, requiredSymbols, asserts)
+
+/-- `DocumentSerial::unserialize`. -/
+def DocumentS.unserialize (d : DocumentS) (pass : Bool := true) : D Document :=
+  match documentPre d with
+  | .error e => .error e
+  | .ok (settings, classes) =>
+    match mapE (SegmentS.unserialize pass settings) d.segments with
+    | .error e => .error e
+    | .ok segments =>
+      match documentPost d with
+      | .error e => .error e
+      | .ok (entry, symbolAssignments, requiredSymbols, asserts) =>
+        .ok { settings := settings, vramClasses := classes,
+              segments := if pass then segments.map (applyClassKeep classes) else segments,
+              entry := entry, symbolAssignments := symbolAssignments,
+              requiredSymbols := requiredSymbols, asserts := asserts }
 
 /-- `Document::read_file` from the canonical tree. -/
 def parseDocument (y : Y) : D Document :=
